@@ -1052,27 +1052,10 @@ func checkBuildCommandsNoIndex(p *core.Prog, r *core.Result) {
 	}
 	// callers in files build.go / watch.go: identified by role = the cobra commands whose Run eventually calls (*workspace).build or watch.
 	n := 0
-	for _, c := range p.StaticCallers(lp) {
-		f := c.Parent()
-		// role: the enclosing function also (transitively, statically) calls (*dawn.Project).Run or Watch
-		runs := false
-		cl := staticClosure(p, f)
-		for g := range cl {
-			for _, c2 := range core.Calls(g) {
-				if cal := core.Callee(c2); cal != nil {
-					k := core.CalleeKey(cal)
-					if k == core.ModulePath+".(*Project).Run" || k == core.ModulePath+".(*Project).Watch" {
-						runs = true
-					}
-				}
-			}
-		}
-		if !runs {
-			continue
-		}
+	for _, ls := range loadSitesOfRunners(p, lp) {
+		c, f := ls.Site, ls.Site.Parent()
 		// repl also reaches Run through the REPL builtin; it is interactive and explicitly index-optional (flag): skip commands whose index argument is a flag variable
-		idx := c.Common().Args[2]
-		b, isConst := core.ConstBool(idx)
+		b, isConst := core.ConstBool(ls.Index)
 		n++
 		if !isConst {
 			r.Note("R3.6", fname(f)+"#index-arg", p.InstrPos(c.(ssa.Instruction)), "index argument is a runtime flag (interactive REPL); not a build command")
